@@ -15,31 +15,25 @@ From DashuGen Require Import ModRingGen.
 Open Scope Z_scope.
 
 (** ---------------- window length ---------------- *)
-Lemma gen_wcost_eq n ws : gen_wcost n ws = wcost n ws.
-Proof. unfold gen_wcost, wcost. lia. Qed.
-
-Lemma gen_choose_loop_eq fuel : forall w n ws c, gen_choose_loop fuel w n ws c = choose_loop w fuel n ws c.
-Proof.
-  induction fuel as [|f IH]; intros w n ws c; cbn [gen_choose_loop choose_loop]; [reflexivity|].
-  unfold gen_window_guard, gen_window_break. rewrite gen_wcost_eq, IH. reflexivity.
-Qed.
-
-Theorem gen_choose_window_len_eq w n : gen_choose_window_len w n = choose_window_len w n.
-Proof. unfold gen_choose_window_len, choose_window_len, gen_window_start. rewrite gen_choose_loop_eq, gen_wcost_eq. reflexivity. Qed.
-
+(** the model of large::pow runs the regenerated function (ModRingPowModel.pow_nontrivial_large); what the proofs need
+    of it - a window length in [1, w) - is proved over the generated definition in ModRingPowProofs.v *)
 Theorem gen_window_range w n : 2 <= w -> 1 <= gen_choose_window_len w n < w.
-Proof. intros Hw. rewrite gen_choose_window_len_eq. apply choose_window_len_range. exact Hw. Qed.
+Proof. apply gen_choose_window_len_range. Qed.
 
-(** the sliding-window exponentiation of the model IS the algorithm with the regenerated parameters *)
-Theorem gen_pow_params w (T : Type) (one : T) (sqr : T -> T) (mul : T -> T -> T) winf raw exp :
+(** the sliding-window exponentiation of the model IS the algorithm with the regenerated parameters: window length,
+    number of table entries `(1 << (window_len - 1)) - 1`, first bit `bit_len - 2` *)
+Theorem gen_pow_params w (T : Type) (sqr : T -> T) (mul : T -> T -> T) winf raw exp : 2 <= w ->
   pow_nontrivial_large w T sqr mul winf raw exp =
     let bl := Z.log2 exp + 1 in
     let wl := gen_choose_window_len w bl in
     let val := sqr raw in
     window_loop T sqr mul winf (Z.to_nat bl) raw (build_table T mul (Z.to_nat (gen_table_entries wl)) raw val) wl exp (gen_first_bit bl) val.
 Proof.
-  unfold pow_nontrivial_large, pow_window_with, gen_table_entries, gen_first_bit. cbv zeta.
-  rewrite gen_choose_window_len_eq. rewrite Z.mul_1_l. reflexivity.
+  intros Hw. unfold pow_nontrivial_large, pow_window_with, gen_table_entries, gen_first_bit. cbv zeta.
+  pose proof (gen_choose_window_len_range w (Z.log2 exp + 1) Hw) as Hc.
+  replace ((1 <=? gen_choose_window_len w (Z.log2 exp + 1)) && (gen_choose_window_len w (Z.log2 exp + 1) <? w)) with true
+    by (symmetry; apply andb_true_intro; split; [apply Z.leb_le | apply Z.ltb_lt]; lia).
+  rewrite Z.mul_1_l. reflexivity.
 Qed.
 
 Lemma gen_table_loop_entries wl : gen_table_loop_end wl - 1 = gen_table_entries wl.
@@ -52,23 +46,26 @@ Fixpoint table_lookup (t : list (Z * Z * Z)) (n : Z) : option Z :=
   | (lo, hi, wl) :: r => if (lo <=? n) && (n <=? hi) then Some wl else table_lookup r n
   end.
 
-Definition window_table_check : bool :=
-  forallb (fun k => match table_lookup gen_window_table (Z.of_nat k) with
-                    | Some wl => wl =? choose_window_len 64 (Z.of_nat k)
-                    | None => false
-                    end) (seq 2 (Z.to_nat gen_window_table_max - 1)).
+Definition check_one (k : nat) : bool :=
+  match table_lookup gen_window_table (Z.of_nat k) with
+  | Some wl => wl =? gen_choose_window_len 64 (Z.of_nat k)
+  | None => false
+  end.
+Definition table_range : list nat := seq 2 (Z.to_nat gen_window_table_max - 1).
 
-Lemma window_table_check_ok : window_table_check = true.
+Lemma window_table_check_ok : forallb check_one table_range = true.
 Proof. vm_compute. reflexivity. Qed.
 
+Lemma in_table_range n : 2 <= n <= gen_window_table_max -> In (Z.to_nat n) table_range.
+Proof. intros Hn. unfold table_range. apply in_seq. unfold gen_window_table_max in *. lia. Qed.
+
 Theorem gen_window_table_ok n : 2 <= n <= gen_window_table_max ->
-  table_lookup gen_window_table n = Some (choose_window_len 64 n) /\ table_lookup gen_window_table n = Some (gen_choose_window_len 64 n).
+  table_lookup gen_window_table n = Some (gen_choose_window_len 64 n).
 Proof.
-  intros Hn. pose proof window_table_check_ok as H. unfold window_table_check in H. rewrite forallb_forall in H.
-  specialize (H (Z.to_nat n)). rewrite Z2Nat.id in H by lia.
-  assert (In (Z.to_nat n) (seq 2 (Z.to_nat gen_window_table_max - 1))) as Hin by (apply in_seq; lia).
-  specialize (H Hin). rewrite gen_choose_window_len_eq. destruct (table_lookup gen_window_table n) as [wl|]; [|discriminate].
-  apply Z.eqb_eq in H. subst wl. split; reflexivity.
+  intros Hn. pose proof (proj1 (forallb_forall check_one table_range) window_table_check_ok (Z.to_nat n) (in_table_range n Hn)) as H.
+  unfold check_one in H. rewrite Z2Nat.id in H by lia.
+  destruct (table_lookup gen_window_table n) as [wl|]; [|discriminate].
+  apply Z.eqb_eq in H. subst wl. reflexivity.
 Qed.
 
 (** ---------------- comparison methods and product-length switches ---------------- *)
